@@ -12,5 +12,6 @@ let () =
        | "parse" -> Mparse.run_parse (List.tl c)
        | "ros1msg" -> Mros.run_ros1msg (List.tl c)
        | "bag" -> Mbag.run_bag (List.tl c)
+       | "db3" -> Mdb3.run_db3 (List.tl c)
        | _ -> failwith "unknown mode");
       print_endline "end") cases
